@@ -203,13 +203,20 @@ type vfClientSrc struct {
 	// extension objects, and the library documents that a spec must not be shared between connections
 	SpecFn func() *ClientHelloSpec
 	SeedHx string
+	// FirstBuild "without-session": the hello is first built with BuildHandshakeStateWithoutSession (the other
+	// documented way to build it for inspection) instead of BuildHandshakeState
+	FirstBuild string
 }
 
 func (s vfClientSrc) String() string {
-	if s.SeedHx != "" {
-		return s.Kind + ":" + s.Name + ":" + s.SeedHx
+	fb := ""
+	if s.FirstBuild != "" {
+		fb = "(first build " + s.FirstBuild + ")"
 	}
-	return s.Kind + ":" + s.Name
+	if s.SeedHx != "" {
+		return s.Kind + ":" + s.Name + ":" + s.SeedHx + fb
+	}
+	return s.Kind + ":" + s.Name + fb
 }
 
 func vfGenWeights(t *rapid.T, label string) *Weights {
@@ -269,6 +276,14 @@ func vfGenRandomizedID(t *rapid.T, label string) vfClientSrc {
 // vfGenClientSrc draws a parrot (most of the time), a randomized spec, a handshake-capable generated custom spec or
 // a fingerprinted copy of a parrot's hello.
 func vfGenClientSrc(t *rapid.T, label string) vfClientSrc {
+	src := vfGenClientSrc0(t, label)
+	if rapid.IntRange(0, 4).Draw(t, label+"_first_build_without_session") == 0 {
+		src.FirstBuild = "without-session"
+	}
+	return src
+}
+
+func vfGenClientSrc0(t *rapid.T, label string) vfClientSrc {
 	k := rapid.IntRange(0, 19).Draw(t, label+"_kind")
 	switch {
 	case k < 11:
@@ -395,7 +410,11 @@ func vfPrepareClient(src vfClientSrc, sni string, randSeed uint64, mod func(*Con
 			return nil, fmt.Errorf("ApplyPreset: %w", err)
 		}
 	}
-	if err := uc.BuildHandshakeState(); err != nil {
+	if src.FirstBuild == "without-session" {
+		if err := uc.BuildHandshakeStateWithoutSession(); err != nil {
+			return nil, fmt.Errorf("BuildHandshakeStateWithoutSession: %w", err)
+		}
+	} else if err := uc.BuildHandshakeState(); err != nil {
 		return nil, fmt.Errorf("BuildHandshakeState: %w", err)
 	}
 	raw := uc.HandshakeState.Hello.Raw
@@ -777,6 +796,14 @@ func vfGridRun(rt *rapid.T, st *vfStats, prop string, o vfGridOpts) *vfGridResul
 
 // vfGenTLS13Src draws a source whose hello carries key shares: a TLS 1.3 parrot or a randomized spec forced to 1.3.
 func vfGenTLS13Src(rt *rapid.T) vfClientSrc {
+	src := vfGenTLS13Src0(rt)
+	if rapid.IntRange(0, 4).Draw(rt, "first_build_without_session") == 0 {
+		src.FirstBuild = "without-session"
+	}
+	return src
+}
+
+func vfGenTLS13Src0(rt *rapid.T) vfClientSrc {
 	// parrots whose hello carries key shares, a randomized spec forced to TLS 1.3, or a parrot's spec whose key_share
 	// and supported_groups are replaced by a drawn list of up to five groups (several classical shares, hybrid anywhere)
 	kind := rapid.IntRange(0, 11).Draw(rt, "kind")
